@@ -360,6 +360,24 @@ pub fn run(ctx: &mut Ctx) {
             }
         }
     }
+    // every scalar of the BMP blocks with case mappings (U+0080..U+2FFF, U+A640..U+ABFF,
+    // U+FB00..U+FFFF) and of the cased supplementary blocks, next to a non-ASCII capital, as
+    // nuget and pypi name: what was set is what is reported, under the type's rule
+    let mut n = 0u64;
+    for cp in (0x80u32..0x3000).chain(0xA640..0xAC00).chain(0xFB00..0x1_0000).chain(0x1_0400..0x1_0500).chain(0x1_0C80..0x1_0D00).chain(0x1_1880..0x1_18E0).chain(0x1_6E40..0x1_6EA0).chain(0x1_E900..0x1_E960) {
+        if !ctx.mine(cp as u64) {
+            continue;
+        }
+        let Some(c) = char::from_u32(cp) else { continue };
+        for ty in ["nuget", "pypi"] {
+            for name in [format!("É{c}"), format!("a_{c}É")] {
+                let h = Hist { ty: ty.into(), name, calls: vec![] };
+                case(ctx, "PackageType", &h, false);
+                n += 1;
+            }
+        }
+    }
+    ctx.st.add("exhaustive:cased-block-scalar-next-to-capital", n);
     // rule-sensitive names for the enum (pypi / nuget / maven), extended by random calls
     let mut r = ctx.rng("c09.names");
     for _ in 0..ctx.share(100_000, 3_000_000) {
